@@ -57,7 +57,12 @@ RULE = ("random 2-treatment screens (1-3 samples, 3-6 treatments + control, one-
         "recorded as a FRESH source; each run twice (global generator reseeded differently, unrelated "
         "global draws interleaved). Object-reuse stream: for GaussianDBALScorer (max_triples < C(n,3)) / RandomScorer / SizeScorer through score() and "
         "score_chunk(), every plate generator, smoother, the initial-plate generator and KPerSamplePlatePolicy: obj.op(x, rng(s1)); obj.op(x, rng(s2)) on ONE "
-        "object must equal fresh.op(x, rng(s2)) in output, draw trace and final generator state. Cross-process stream: a list of seeded cases (every generator -- PairwisePlateGenerator on all-masked screens with "
+        "object must equal fresh.op(x, rng(s2)) in output, draw trace and final generator state. Object-lifetime stream (checklist item 10): groups of 4 equal-shape variants of a case for 10 "
+        "operations are executed by one worker forwards and by another backwards; each case's digest must not depend on its predecessors; plus tight loops over 8 temporaries `big.subset(mask_i).to_screen()` of equal size "
+        "(hold-outs, generators, smoothers, cover) and equally shaped DBAL arrays, one generator per variant, looped forwards in one process and backwards "
+        "in another. Instalments "
+        "(models fed plate by plate), default budgets (5000 triples with C(32,3) below and C(33,3) above, through the function, score_chunk and the CLI), "
+        "budgets at / above all triples. Cross-process stream: a list of seeded cases (every generator -- PairwisePlateGenerator on all-masked screens with "
         ">= 2 samples that have single-drug rows and several candidate plates --, smoothers, cover, hold-outs, RandomScorer, DBAL sub-sampling, policy, "
         "select_next_plate, score_chunk, sampling.sample of both Gibbs models, prepare_retrospective_simulation.main() --seed) is executed by "
         "harness/c18_worker.py in one fresh interpreter per PYTHONHASHSEED in {0,1,2}; the digests must agree. Shape parameters of the model trace are computed from the operation's inputs, except the "
@@ -359,7 +364,7 @@ def make_smoother(spec):
     return R.BatchieEnsemblePlateSmoother(min_size=spec["min_size"], n_iterations=spec["n_iterations"], min_n_cell_line_plates=spec["min_n"])
 
 
-def make_model(spec, screen):
+def make_model(spec, screen, instalments=False):
     from batchie.data import ExperimentSpace
     es = ExperimentSpace.from_screen(screen)
     if spec["kind"] == "combo":
@@ -371,7 +376,11 @@ def make_model(spec, screen):
         m = SparseDrugComboInteraction(experiment_space=es, n_embedding_dimensions=spec["dims"], mult_gamma_proc=spec["mult"],
                                        local_shrinkage=spec["local"])
     obs = screen.subset_observed()
-    if obs is not None:
+    if obs is not None and instalments:
+        for p in sorted(screen.plates, key=lambda p: p.plate_id):      # plate by plate (checklist item 12)
+            if p.is_observed:
+                m.add_observations(p)
+    elif obs is not None:
         m.add_observations(obs)
     return m
 
@@ -442,7 +451,8 @@ def op_dbal_direct(case, G, ins, tmp):
     for i in range(T):
         for j in range(i):
             d[i, j] = d[j, i] = 0.1 + r.random()
-    out = dbal_fast_gauss_scoring_vectorized(pred, var, d, G, max_combos=case["max_combos"])
+    kw = {} if case["max_combos"] is None else {"max_combos": case["max_combos"]}       # None: the function's own default (5000)
+    out = dbal_fast_gauss_scoring_vectorized(pred, var, d, G, **kw)
     return "scorer", ["scorer=dbal", "n=1"], np.asarray(out, dtype=float).tobytes().hex()
 
 
@@ -486,6 +496,8 @@ def _make_scorer(kind):
         from batchie.scoring.size import SizeScorer
         return SizeScorer()
     from batchie.scoring.gaussian_dbal import GaussianDBALScorer
+    if kind == "dbal_default":                    # the defaults that occur twice in the code: max_triples = max_combos = 5000 (max_chunk 50)
+        return GaussianDBALScorer()
     return GaussianDBALScorer(max_chunk=2, max_triples=4)
 
 
@@ -494,6 +506,8 @@ def _chunk_count(screen, batch, n_chunks, chunk_index, kind):
     n = len(np.array_split(np.arange(len(un)), n_chunks)[chunk_index])
     if kind == "dbal":
         return 0 if n == 0 else int(math.ceil(n / 2.0))
+    if kind == "dbal_default":
+        return 0 if n == 0 else int(math.ceil(n / 50.0))
     return n
 
 
@@ -509,7 +523,7 @@ def op_score_chunk(case, G, ins, tmp):
     with quiet():
         out = score_chunk(scorer=_make_scorer(case["scorer"]), thetas=thetas, screen=s, distance_matrix=dm,
                           rng=(G if case["rng_given"] else None), n_chunks=case["n_chunks"], chunk_index=case["chunk_index"], batch_plate_ids=batch)
-    return ("scoreChunk" if case["rng_given"] else "scoreChunkNoRng"), ["scorer=" + case["scorer"], "n=%d" % n], canon_scores_holder(out)
+    return ("scoreChunk" if case["rng_given"] else "scoreChunkNoRng"), ["scorer=" + case["scorer"].replace("_default", ""), "n=%d" % n], canon_scores_holder(out)
 
 
 def op_sample_mvn(case, G, ins, tmp):
@@ -526,7 +540,7 @@ def op_sample_mvn(case, G, ins, tmp):
 def op_gibbs_sweep(case, G, ins, tmp):
     s = build_screen(case["screen"])
     with quiet():
-        m = make_model(case["model"], s)
+        m = make_model(case["model"], s, instalments=case.get("instalments", False))
         if case["rng_given"]:
             m.set_rng(G)
         toks = sweep_cfg_tokens(m)
@@ -545,7 +559,7 @@ def op_sample_mcmc(case, G, ins, tmp):
     from batchie.core import ThetaHolder
     s = build_screen(case["screen"])
     with quiet():
-        m = make_model(case["model"], s)
+        m = make_model(case["model"], s, instalments=case.get("instalments", False))
         toks = sweep_cfg_tokens(m)
         h = ThetaHolder(n_thetas=case["n_thetas"])
         sampling.sample(m, h, seed=case["seed"], n_chains=case["n_chains"], chain_index=case["chain_index"], n_burnin=case["n_burnin"], thin=case["thin"])
@@ -802,11 +816,11 @@ def judge(case, res, queue=None):
             res.fail("two runs with identical inputs and an identically seeded generator differ (global generator reseeded differently in between)",
                      case, {"run1": (A["out"] or A["err"])[:300], "run2": (B["out"] or B["err"])[:300]}, "identical outputs",
                      signature="C18:two-runs-differ:" + op)
-        elif A["events"] != B["events"]:
-            res.fail("two identical runs make different draws", case, {"run1": A["events"][:40], "run2": B["events"][:40]}, "same trace",
-                     signature="C18:two-runs-differ:" + op)
     if queue is not None and A["err"] is None:
         queue(label, case, " ".join(["c18.trace", A["model_op"]] + A["toks"]), ",".join(A["events"]) if A["events"] else "-")
+        if B["err"] is None and B["events"] != A["events"]:
+            # equal outputs with a different number of draws is not something the property states: the second run's trace goes to the tie
+            queue(label + ":second-run", case, " ".join(["c18.trace", B["model_op"]] + B["toks"]), ",".join(B["events"]) if B["events"] else "-")
     return A, (A["err"] is None and len(A["events"]) > 0)
 
 
@@ -850,6 +864,11 @@ def gen_case(rng, op):
     elif op == "dbal_direct":
         T = rng.randint(4, 7)
         case.update(P=rng.randint(1, 4), T=T, E=rng.randint(1, 4), max_combos=rng.randint(1, math.comb(T, 3) - 1), data_seed=rng.getrandbits(31))
+        r = rng.random()
+        if r < 0.15:          # budget exactly at / just above the number of triples
+            case["max_combos"] = math.comb(T, 3) + rng.choice([0, 1, 2])
+        elif r < 0.35:        # the DEFAULT budget (5000) with C(32,3) = 4960 below and C(33,3) = 5456 above it
+            case.update(T=rng.choice([32, 33]), P=rng.randint(1, 2), E=rng.randint(1, 2), max_combos=None)
     elif op == "policy":
         case.update(screen=gen_raw_screen(rng, all_masked=True), k=rng.randint(1, 3), n_batch=rng.randint(0, 2))
     elif op == "select_next_plate":
@@ -863,13 +882,13 @@ def gen_case(rng, op):
         case.update(d=rng.randint(1, 5), rng_given=rng.random() < 0.75, data_seed=rng.getrandbits(31))
     elif op == "gibbs_sweep":
         case.update(screen=gen_raw_screen(rng, all_masked=rng.random() < 0.1, with_controls=True), model=gen_model_spec(rng),
-                    n_steps=rng.randint(1, 2), rng_given=rng.random() < 0.75)
+                    n_steps=rng.randint(1, 2), rng_given=rng.random() < 0.75, instalments=rng.random() < 0.3)
         if not case["rng_given"]:
             case["n_steps"] = 1
     elif op == "sample_mcmc":
         nch = rng.randint(1, 3)
         case.update(screen=gen_raw_screen(rng), model=gen_model_spec(rng), n_thetas=rng.randint(1, 3), n_burnin=rng.randint(0, 2),
-                    thin=rng.randint(1, 2), n_chains=nch, chain_index=rng.randrange(nch))
+                    thin=rng.randint(1, 2), n_chains=nch, chain_index=rng.randrange(nch), instalments=rng.random() < 0.3)
     elif op == "cli_prepare":
         case.update(screen=gen_raw_screen(rng, all_observed=True), fraction=rng.choice([0.1, 0.3, 0.5]),
                     init=rng.choice([None, "True", "False"]), gen=(gen_generator_spec(rng) if rng.random() < 0.8 else None),
@@ -1207,36 +1226,186 @@ def gen_xproc_cases(rng, scale):
     return cases
 
 
-def run_workers(cases, hashseeds, timeout=600):
-    """the same case list in one worker process per hash seed (in parallel); returns {hashseed: digests or error string}"""
+def run_jobs(jobs, timeout=600):
+    """jobs: [(key, case list, PYTHONHASHSEED)] -- one fresh worker process per job, all in parallel; {key: result dict or error string}"""
     import json
     import subprocess
     tmp = tempfile.mkdtemp(prefix="verif_c18x_")
     out = {}
     try:
-        fn = os.path.join(tmp, "cases.json")
-        with open(fn, "w") as f:
-            json.dump(cases, f)
         worker = os.path.join(os.path.dirname(os.path.abspath(__file__)), "c18_worker.py")
         procs = []
-        for hs in hashseeds:
+        for j, (key, cases, hs) in enumerate(jobs):
+            fn = os.path.join(tmp, "cases%d.json" % j)
+            with open(fn, "w") as f:
+                json.dump(cases, f)
             env = dict(os.environ, PYTHONHASHSEED=str(hs))
-            procs.append((hs, subprocess.Popen([sys.executable, worker, fn], env=env, stdout=subprocess.PIPE, stderr=subprocess.PIPE, text=True)))
-        for hs, p in procs:
+            procs.append((key, subprocess.Popen([sys.executable, worker, fn], env=env, stdout=subprocess.PIPE, stderr=subprocess.PIPE, text=True)))
+        for key, p in procs:
             try:
                 so, se = p.communicate(timeout=timeout)
             except subprocess.TimeoutExpired:
                 p.kill()
-                out[hs] = "worker timed out"
+                out[key] = "worker timed out"
                 continue
             line = [l for l in so.splitlines() if l.startswith("C18X ")]
             if p.returncode != 0 or not line:
-                out[hs] = "worker failed (rc %s): %s" % (p.returncode, se[-400:])
+                out[key] = "worker failed (rc %s): %s" % (p.returncode, se[-400:])
             else:
-                out[hs] = json.loads(line[-1][5:])
+                out[key] = json.loads(line[-1][5:])
     finally:
         shutil.rmtree(tmp, ignore_errors=True)
     return out
+
+
+def run_workers(cases, hashseeds, timeout=600):
+    """the same case list in one worker process per hash seed (in parallel); returns {hashseed: digests or error string}"""
+    return run_jobs([(hs, cases, hs) for hs in hashseeds], timeout)
+
+
+# checklist item 10: identity-keyed caches / object lifetime.  Every OPS function builds its screen / thetas / plates inside the call and
+# only the digest survives, so consecutive cases of EQUAL shape are exactly "temporaries of equal size in a loop" (CPython hands freed
+# addresses out again).  A memo keyed by id(obj) (+ shape) makes a case's result depend on which cases ran before it in the process:
+# the same list is executed forwards in one fresh process and backwards in another; every case must give the same digest in both
+# (the first case of each process has no history at all).
+def _variant(case, i):
+    import copy
+    c = copy.deepcopy(case)
+    if "screen" in c:
+        rows = c["screen"]["rows"]
+        names = sorted({r[j] for r in rows for j in (2, 3) if r[j] != "control"})
+        ren = {n: names[(k + i) % len(names)] for k, n in enumerate(names)}
+        obs = [r[4] for r in rows]
+        for k, r in enumerate(rows):                       # same shape: treatments renamed cyclically, observations rotated
+            r[2], r[3] = ren.get(r[2], r[2]), ren.get(r[3], r[3])
+            r[4] = obs[(k + i) % len(obs)]
+    if "data_seed" in c:
+        c["data_seed"] = (c["data_seed"] + 7919 * i) % (2 ** 31)
+    c["seed"] = c["seed"] + i                           # ... and another seed: a stale cached draw is then different from a fresh one
+    c["variant"] = i
+    return c
+
+
+def _tight_call(case):
+    inner = case["inner"]
+    if inner == "holdout_random":
+        from batchie.retrospective import create_random_holdout
+        return lambda s, G: "|".join(canon_screen(x) for x in create_random_holdout(s, case["fraction"], G))
+    if inner == "holdout_plate":
+        from batchie.retrospective import create_plate_balanced_holdout_set_among_masked_plates as f
+        return lambda s, G: "|".join(canon_screen(x) for x in f(s, case["fraction"], G))
+    if inner == "generator":
+        return lambda s, G: canon_screen(make_generator(case["gen"]).generate_plates(s, G))
+    if inner == "smoother":
+        return lambda s, G: canon_screen(make_smoother(case["smoother"]).smooth_plates(s, G))
+    if inner == "sparse_cover":
+        from batchie.retrospective import SparseCoverPlateGenerator
+        return lambda s, G: canon_screen(SparseCoverPlateGenerator(reveal_single_treatment_experiments=case["reveal"]).generate_and_unmask_initial_plate(s, G))
+    raise KeyError(inner)
+
+
+def run_tight(case):
+    """checklist item 10, literally: the operation is called on TEMPORARIES of equal size -- `big.subset(mask_i).to_screen()` for rolled masks
+    with the same number of rows, or equally shaped prediction arrays for the DBAL function -- inside a comprehension that keeps only the
+    canonical result, in the order case['order'].  Returns the per-variant results joined in VARIANT order."""
+    n = case["n_variants"]
+    order = list(range(n))[::-1] if case.get("reverse") else list(range(n))
+    outs = {}
+    if case["inner"] == "dbal_direct":
+        from batchie.scoring.gaussian_dbal import dbal_fast_gauss_scoring_vectorized as f
+        P, T, E = case["P"], case["T"], case["E"]
+
+        def arrs(i):
+            r = pyrandom.Random(case["data_seed"] + i)
+            return (np.array([r.gauss(0, 1) for _ in range(P * T * E)]).reshape(P, T, E), np.array([0.5 + r.random() for _ in range(P * T * E)]).reshape(P, T, E))
+        d = np.ones((T, T)) - np.eye(T)
+        for i in order:
+            try:
+                outs[i] = np.asarray(f(*arrs(i), d, np.random.default_rng(case["seed"] + i), max_combos=case["max_combos"]), dtype=float).tobytes().hex()
+            except Exception as e:
+                outs[i] = "err:" + type(e).__name__
+        return "|".join(outs[i] for i in range(n))
+    big = build_screen(case["screen"])
+    base = (np.arange(big.size) % 4) != 0
+    call = _tight_call(case)
+    for i in order:
+        try:
+            outs[i] = call(big.subset(np.roll(base, i)).to_screen(), np.random.default_rng(case["seed"] + i))   # another generator per variant
+        except Exception as e:
+            outs[i] = "err:" + type(e).__name__
+    return "|".join(outs[i] for i in range(n))
+
+
+def gen_tight_cases(rng, scale):
+    cases = []
+    for inner in ("holdout_random", "holdout_plate", "generator", "smoother", "sparse_cover", "dbal_direct") * scale:
+        src = gen_case(rng, inner)
+        c = {"op": "tight", "inner": inner, "n_variants": 8, "seed": src["seed"]}
+        for k in ("fraction", "gen", "smoother", "reveal", "P", "T", "E", "data_seed", "max_combos"):
+            if k in src:
+                c[k] = src[k]
+        if inner != "dbal_direct":
+            # a larger screen so that every rolled 3/4 subset is a proper screen of the same size
+            raws = [gen_raw_screen(rng, all_observed=(inner == "sparse_cover"), all_masked=(inner in ("generator", "smoother"))) for _ in range(3)]
+            rows = []
+            for j, r in enumerate(raws):
+                for row in r["rows"]:
+                    rows.append([row[0], "q%d_%s" % (j, row[1])] + row[2:])
+            c["screen"] = {"rows": rows}
+            if inner == "generator" and c["gen"]["kind"] == "permutation":
+                c["gen"]["force"] = []
+        cases.append(c)
+    return cases
+
+
+def gen_temporaries_groups(rng, scale):
+    groups = []
+    for op in ("generator", "smoother", "sparse_cover", "holdout_random", "holdout_plate", "scorer_random", "dbal_direct", "policy", "select_next_plate",
+               "score_chunk") * scale:
+        base = gen_case(rng, op)
+        if "rng_given" in base:
+            base["rng_given"] = True
+        if op == "generator" and rng.random() < 0.5:
+            base.update(screen=gen_pairwise_screen(rng), gen={"kind": "pairwise", "subset_size": 1, "anchor_size": 0})
+        groups.append([_variant(base, i) for i in range(4)])
+    return groups
+
+
+def judge_order(groups, res, count=None, tight=()):
+    flat = [c for g in groups for c in g]
+    tight = list(tight)
+    got = run_jobs([("fwd", tight + flat, 0), ("rev", [dict(c, reverse=True) for c in tight] + flat[::-1], 0)])
+    bad = {k: g for k, g in got.items() if not isinstance(g, dict)}
+    if bad:
+        raise RuntimeError("C18 cross-process worker: %s" % bad)
+    nt = len(tight)
+    for c, f, r in zip(tight, got["fwd"]["digests"][:nt], got["rev"]["digests"][:nt]):
+        fv, rv = f.split("|"), r.split("|")
+        if count is not None:
+            count([c], fv, tight=True)
+        if f != r:
+            n = c["n_variants"]
+            w = len(fv) // n if len(fv) % n == 0 and len(fv) == len(rv) else 0
+            i = next((j // w for j in range(len(fv)) if fv[j] != rv[j]), -1) if w else -1
+            res.fail("a seeded step called on TEMPORARIES of equal size in a loop (`big.subset(mask_i).to_screen()` / equally shaped arrays, only the result kept) "
+                     "returns a result that depends on the order of the loop: looping over the variants forwards and backwards (two fresh processes) gives "
+                     "different outputs for the same variant (identity-keyed cache / object lifetime)", {"op": "xproc_order", "inner_op": c["inner"], "tight": c},
+                     {"first_differing_variant": i, "forwards": f[:300], "backwards": r[:300]}, "each variant's output independent of the variants processed before it",
+                     signature="C18:object-lifetime:" + c["inner"])
+    fwd, rev = got["fwd"]["digests"][nt:], got["rev"]["digests"][nt:][::-1]
+    pos = 0
+    for g in groups:
+        f, r = fwd[pos:pos + len(g)], rev[pos:pos + len(g)]
+        pos += len(g)
+        if count is not None:
+            count(g, f)
+        if f != r:
+            i = next(j for j in range(len(g)) if f[j] != r[j])
+            res.fail("a seeded step on temporaries of equal shape (inputs built inside a loop, only the result kept) depends on which other calls ran before it "
+                     "in the process: the same list of cases run forwards and backwards in two fresh processes gives different outputs for the same case "
+                     "(identity-keyed cache / object lifetime)", {"op": "xproc_order", "inner_op": g[0]["op"], "group": g},
+                     {"variant": i, "digest_when_run_forwards": f, "digest_when_run_backwards": r}, "each case's output independent of the cases run before it",
+                     signature="C18:object-lifetime:" + g[0]["op"])
 
 
 def judge_xproc(cases, hashseeds, res, count=None):
@@ -1416,6 +1585,13 @@ def run(ctx, res):
             case = gen_case(rng, op)
             if t % 6 == 1:
                 case["seed"] = 0
+            if t in (2, 3):          # the default budget of 5000 triples, C(32,3) = 4960 below and C(33,3) = 5456 above, through every entry point
+                if op == "dbal_direct":
+                    case.update(T=30 + t, P=2, E=2, max_combos=None)
+                elif op == "score_chunk":
+                    case.update(scorer="dbal_default", n_thetas=30 + t, rng_given=True)
+                elif op == "cli_scores":     # the command line can only use the default budget
+                    case.update(scorer="dbal", n_thetas=30 + t)
             res.evaluations += 1
             A, nontrivial = judge(case, res, queue)
             res.count("op." + op)
@@ -1425,6 +1601,13 @@ def run(ctx, res):
                 res.count("norng." + op)
             if case["seed"] == 0:
                 res.count("seed0." + op)
+                res.count("class.falsy_seed")
+            if case.get("instalments"):
+                res.count("class.instalments." + op)
+            if case.get("max_combos", 0) is None or case.get("n_thetas") in (32, 33):
+                res.count("class.default_budget_boundary." + op + (".C%d" % math.comb(case.get("T") or case["n_thetas"], 3)))
+            if op == "dbal_direct" and case["max_combos"] is not None and case["max_combos"] >= math.comb(case["T"], 3):
+                res.count("class.budget_at_or_above_all_triples")
             if nontrivial:
                 res.nontrivial.add(common.short_hash(case))
                 res.count("drew." + op)
@@ -1460,6 +1643,7 @@ def run(ctx, res):
             case = gen_reuse_case(rrng, kind)
             res.evaluations += 1
             res.count("reuse." + kind)
+            res.count("class.reuse_with_different_seed." + kind)
             _, nontrivial = judge_reuse(case, res, queue)
             if nontrivial:
                 res.nontrivial.add(common.short_hash(case))
@@ -1475,6 +1659,16 @@ def run(ctx, res):
         else:
             res.count("xproc.raised." + case["op"])
     judge_xproc(xcases, list(XPROC_HASHSEEDS), res, xcount)
+
+    def ocount(g, digests, tight=False):
+        res.evaluations += 1
+        res.count(("class.temporaries.tight_loop." + g[0]["inner"]) if tight else ("class.temporaries." + g[0]["op"]))
+        ok = [d for d in digests if not d.startswith("err:")]
+        if len(set(ok)) >= 2:
+            res.nontrivial.add(common.short_hash(["order", g]))
+            res.count("class.temporaries.variants_with_distinct_results")
+    trng = ctx.subrng("c18tmp")
+    judge_order(gen_temporaries_groups(trng, 1 if ctx.tier == "quick" else 5), res, ocount, tight=gen_tight_cases(trng, 2 if ctx.tier == "quick" else 8))
     res.count("xproc.processes", len(XPROC_HASHSEEDS))
     vi_case = {"op": "sample_vi", "seed": 5, "gseed": rng.getrandbits(20)}
     res.evaluations += 1
@@ -1493,6 +1687,12 @@ def replay(ctx, case, res):
     if case.get("op") == "reuse":
         warm_up()
         judge_reuse(case, res, None)
+        return
+    if case.get("op") == "xproc_order":
+        if "tight" in case:
+            judge_order([], res, tight=[case["tight"]])
+        else:
+            judge_order([case["group"]], res)
         return
     if case.get("op") == "xproc":
         judge_xproc([case["inner"]], list(case["hashseeds"]) + [h for h in (0, 1, 2, 3, 4, 5) if h not in case["hashseeds"]], res)
